@@ -286,7 +286,7 @@ func runC06(c *Ctx) {
 	}
 	c.Sample(map[string]interface{}{"rejections": names})
 	c.Meta(map[string]interface{}{
-		"rule": "rejections: on every state reached by BFS (C01 alphabet, stated depth, cache and async on and off) every rejecting call of the menu (validation failure as insert and as update, uniqueness conflict as insert / case variant / update of a stored object / re-insert of a deleted id, wrong type and invalid and conflicting members in a batch, unknown collection, unserialisable value as insert / update / batch member) must fail with its documented class, leave the ordered observation vector and the files identical, keep Control quiet, and every alphabet call applied afterwards must still refine the reference (latent damage). Storage faults: see the fault part of this evidence. Non-trivial = distinct (state, rejection, follow-up).",
+		"rule":    "rejections: on every state reached by BFS (C01 alphabet, stated depth, cache and async on and off) every rejecting call of the menu (validation failure as insert and as update, uniqueness conflict as insert / case variant / update of a stored object / re-insert of a deleted id, wrong type and invalid and conflicting members in a batch, unknown collection, unserialisable value as insert / update / batch member) must fail with its documented class, leave the ordered observation vector and the files identical, keep Control quiet, and every alphabet call applied afterwards must still refine the reference (latent damage). Storage faults: see the fault part of this evidence. Non-trivial = distinct (state, rejection, follow-up).",
 		"configs": cfgs, "base_depth": depth,
 	})
 	runC06Faults(c)
